@@ -353,7 +353,32 @@ func (v *Verifier) evalCall(fr *Frame, st *State, x *ast.CallExpr) Val {
 				st.assume(w)
 			}
 			res := fn.Type().(*types.Signature).Results()
-			return OpaqueVal{Sh: v.eng.shapeOf(res.At(0).Type()), ID: c.Fresh("err", IntSort), Nil: c.Fresh("binread$ok", BoolSort)}
+			okT := c.Fresh("binread$ok", BoolSort)
+			if v.eng.IntIdx() {
+				// on success the reader has delivered exactly the encoded size of the value
+				rdv := v.eval(fr, st, x.Args[0])
+				_, isI := rdv.(OpaqueVal)
+				_, isP := rdv.(PtrVal)
+				if isI || isP {
+					bits := 0
+					for _, d := range v.eng.leafDescs(locShape(pv.Loc)) {
+						if d.Sort.Kind == SBV {
+							bits += d.Sort.W
+						} else {
+							bits = -1 << 30
+						}
+					}
+					id := v.ifaceIdentity(st, rdv, x.Pos())
+					posH := v.ghostHeap(st, gRdPos)
+					adv := c.Fresh("binread$n", IntSort)
+					st.assume(c.ILe(c.Inti(0), adv))
+					if bits > 0 && bits%8 == 0 {
+						st.assume(c.Implies(okT, c.Eq(adv, c.Inti(int64(bits/8)))))
+					}
+					v.setGhostHeap(st, gRdPos, c.Store(posH, id, c.IAdd(c.Select(posH, id), adv)))
+				}
+			}
+			return OpaqueVal{Sh: v.eng.shapeOf(res.At(0).Type()), ID: c.Fresh("err", IntSort), Nil: okT}
 		}
 	}
 	fv := v.eval(fr, st, x.Fun)
